@@ -64,14 +64,10 @@ theorem sum_range_eq_filter {n : Nat} {M : Type*} [AddCommMonoid M] (t : Fin n) 
   · intro h; exact ⟨by have := t.2; omega, h⟩
   · intro h; exact h.2
 
-/-- **echelon_det** for `EchP`: all `n` rows of the `n × n` matrix accepted, `det() = d` ⇒ `d ≡ det` -/
-theorem echP_det (inv : Inv) (p n : Nat) (hn : 0 < n) (mat : List (List Int)) (hlen : mat.length = n)
-    (hrows : ∀ r ∈ mat, r.length = n) (e : EchP) (d : Nat)
-    (hacc : acceptAll inv { p := p, indices := [], basis := [], factors := [] } mat = some e)
-    (hdet : e.det = some d) :
+/-- the value of `det()` on a state that satisfies the invariant for `n` accepted rows -/
+theorem echInv_det (p n : Nat) (hn : 0 < n) (mat : List (List Int)) (hlen : mat.length = n)
+    (e : EchP) (d : Nat) (hI : EchInv p n e mat) (hdet : e.det = some d) :
     ((d : Nat) : ZMod p) = (matOf p n mat).det := by
-  have hI := acceptAll_inv inv p n mat _ e [] (EchInv.init p n) hrows hacc
-  simp only [List.nil_append] at hI
   obtain ⟨hp, len_b, len_f, row_len, _, hppos, σ, c, hidx, hone, hzero, hrow⟩ := hI
   have hne : mat ≠ [] := by intro h; rw [h] at hlen; simp at hlen; omega
   have hp0 : 0 < p := hppos hne
@@ -136,5 +132,185 @@ theorem echP_det (inv : Inv) (p n : Nat) (hn : 0 < n) (mat : List (List Int)) (h
           rw [sum_range_eq_filter t (fun s => c (t : Nat) s • vecN p n (e.basis.getD s []))] at this
           exact this)
       rw [hdetV]
+
+/-- **echelon_det** for `EchP`: all `n` rows of the `n × n` matrix accepted, `det() = d` ⇒ `d ≡ det` -/
+theorem echP_det (inv : Inv) (p n : Nat) (hn : 0 < n) (mat : List (List Int)) (hlen : mat.length = n)
+    (hrows : ∀ r ∈ mat, r.length = n) (e : EchP) (d : Nat)
+    (hacc : acceptAll inv { p := p, indices := [], basis := [], factors := [] } mat = some e)
+    (hdet : e.det = some d) :
+    ((d : Nat) : ZMod p) = (matOf p n mat).det := by
+  have hI := acceptAll_inv inv p n mat _ e [] (EchInv.init p n) hrows hacc
+  simp only [List.nil_append] at hI
+  exact echInv_det p n hn mat hlen e d hI hdet
+
+/-! ### a rejected row -/
+
+theorem firstNonzero_none : ∀ (l : List Nat) (off : Nat), firstNonzero l off = none → ∀ x ∈ l, x = 0
+  | [], _, _ => by simp
+  | x :: xs, off, h => by
+    unfold firstNonzero at h
+    split at h
+    · exact absurd h (by simp)
+    · rename_i hx
+      intro y hy
+      rcases List.mem_cons.mp hy with rfl | hy
+      · by_contra hne; exact hx hne
+      · exact firstNonzero_none xs (off + 1) h y hy
+
+theorem vecN_zero_of_all_zero (p n : Nat) (l : List Nat) (h : ∀ x ∈ l, x = 0) : vecN p n l = 0 := by
+  funext col
+  unfold vecN
+  by_cases hc : (col : Nat) < l.length
+  · have := h _ (List.getElem_mem hc)
+    rw [List.getD_eq_getElem?_getD, List.getElem?_eq_getElem hc]
+    simp [this]
+  · rw [List.getD_eq_getElem?_getD, List.getElem?_eq_none (Nat.le_of_not_lt hc)]
+    simp
+
+/-- what a successful, rejecting `add` computed -/
+theorem EchP.add_false_unfold {inv : Inv} {e e2 : EchP} {v : List Int} (h : e.add inv v = some (e2, false)) :
+    0 < e.p ∧ ∃ vp',
+      elimP (e.start v.length).p (e.start v.length).basis (e.start v.length).indices
+        (v.map (fun x => (x % ((e.start v.length).p : Int)).toNat)) = some vp' ∧
+      firstNonzero vp' 0 = none := by
+  unfold EchP.add at h
+  split at h
+  · exact absurd h (by simp)
+  · rename_i hpr
+    split at h
+    · exact absurd h (by simp)
+    · simp only [] at h
+      split at h
+      · exact absurd h (by simp)
+      · rename_i vp' helim
+        split at h
+        · rename_i hnone
+          exact ⟨by omega, vp', helim, hnone⟩
+        · exfalso
+          split at h
+          · split at h
+            · exact absurd h (by simp)
+            · split at h
+              · exact absurd h (by simp)
+              · split at h
+                · exact absurd h (by simp)
+                · exact absurd (congrArg Prod.snd (Option.some.inj h)) (by simp)
+          · exact absurd h (by simp)
+
+/-- a rejected row is a combination of the basis rows -/
+theorem EchInv.add_false (inv : Inv) (p n : Nat) (e e2 : EchP) (rows : List (List Int)) (v : List Int)
+    (hI : EchInv p n e rows) (hv : v.length = n) (h : e.add inv v = some (e2, false)) :
+    ∃ m : Nat → ZMod p, vecI p n v = ∑ a ∈ Finset.range rows.length, m a • vecN p n (e.basis.getD a []) := by
+  obtain ⟨hp, len_b, len_f, row_len, k_le, _, σ0, c, hidx, hone, hzero, hrow⟩ := hI
+  obtain ⟨hp0', vp', helim, hnone⟩ := EchP.add_false_unfold h
+  have hp0 : 0 < p := by rw [← hp]; exact hp0'
+  simp only [EchP.start_basis, EchP.start_p, hp] at helim
+  -- the column order of the started builder
+  obtain ⟨σ, hσ, hone', hzero'⟩ : ∃ σ : Equiv.Perm (Fin n), (e.start v.length).indices = permList σ ∧
+      (∀ t (_ : t < rows.length) (htn : t < n), vecN p n (e.basis.getD t []) (σ ⟨t, htn⟩) = 1) ∧
+      (∀ t s (hst : s < t) (_ : t < rows.length) (htn : t < n),
+        vecN p n (e.basis.getD t []) (σ ⟨s, by omega⟩) = 0) := by
+    by_cases hr : rows = []
+    · refine ⟨1, ?_, ?_, ?_⟩
+      · have : e.basis.isEmpty = true := by
+          rw [List.isEmpty_iff]; exact List.eq_nil_of_length_eq_zero (by rw [len_b, hr]; rfl)
+        unfold EchP.start
+        rw [if_pos this, hv]; exact (permList_one n).symm
+      · intro t ht; rw [hr] at ht; simp at ht
+      · intro t s _ ht; rw [hr] at ht; simp at ht
+    · refine ⟨σ0, ?_, hone, hzero⟩
+      have : ¬ e.basis.isEmpty = true := by
+        rw [List.isEmpty_iff]; intro hb
+        apply hr; exact List.eq_nil_of_length_eq_zero (by rw [← len_b, hb]; rfl)
+      unfold EchP.start
+      rw [if_neg this]; exact hidx hr
+  rw [hσ] at helim
+  set vp0 := v.map (fun x => (x % (p : Int)).toNat) with hvp0
+  have hl0 : vp0.length = n := by simp [hvp0, hv]
+  have hzero_vec : vecN p n vp' = 0 := vecN_zero_of_all_zero p n vp' (firstNonzero_none vp' 0 hnone)
+  by_cases hk0 : rows.length = 0
+  · -- no basis row: v itself reduces to zero
+    have hb : e.basis = [] := List.eq_nil_of_length_eq_zero (by rw [len_b]; exact hk0)
+    rw [hb] at helim
+    simp only [elimP] at helim
+    have e0 := Option.some.inj helim
+    refine ⟨fun _ => 0, ?_⟩
+    rw [hk0, Finset.sum_range_zero, ← vecN_mod_cast p n hp0 v, ← hvp0, e0]
+    exact hzero_vec
+  · have hn0 : 0 < n := by omega
+    let piv : Nat → Fin n := fun a => if ha : a < n then σ ⟨a, ha⟩ else σ ⟨0, hn0⟩
+    have hpiv : ∀ a (ha : a < n), piv a = σ ⟨a, ha⟩ := fun a ha => by simp [piv, ha]
+    have hk : e.basis.length ≤ n := by rw [len_b]; exact k_le
+    obtain ⟨_, ⟨m, hvec⟩, _, _⟩ := elimP_spec p n hp0 e.basis (permList σ) piv vp0 vp' hl0 row_len
+      (fun a ha => by
+        rw [hpiv a (by omega)]
+        exact permList_getElem? σ a (by omega))
+      (fun a ha => by
+        rw [hpiv a (by omega)]
+        exact hone' a (by rw [← len_b]; exact ha) (by omega))
+      (fun a b hab hb => by
+        rw [hpiv a (by omega)]
+        exact hzero' b a hab (by rw [← len_b]; exact hb) (by omega))
+      helim
+    refine ⟨m, ?_⟩
+    rw [← vecN_mod_cast p n hp0 v, ← len_b]
+    rw [hzero_vec] at hvec
+    have := hvec
+    rw [eq_comm, sub_eq_zero] at this
+    exact this
+
+/-- **the determinant modulo `p` computed by the reference builder**: whenever `detModPlain` returns
+a value for an `n × n` matrix (all rows accepted and `det()` evaluated, or a row rejected and `0`
+returned), the value is the determinant modulo `p`. -/
+theorem detModPlain_spec (inv : Inv) (p n : Nat) (hn : 0 < n) :
+    ∀ (rest : List (List Int)) (e : EchP) (rows : List (List Int)) (d : Nat),
+      EchInv p n e rows → (rows ++ rest).length = n → (∀ r ∈ rest, r.length = n) →
+      detModPlain inv p e rest = some d → ((d : Nat) : ZMod p) = (matOf p n (rows ++ rest)).det
+  | [], e, rows, d, hI, hlen, _, h => by
+    simp only [detModPlain] at h
+    simp only [List.append_nil] at hlen ⊢
+    exact echInv_det p n hn rows hlen e d hI h
+  | v :: vs, e, rows, d, hI, hlen, hr, h => by
+    unfold detModPlain at h
+    have hv : v.length = n := hr v (by simp)
+    split at h
+    · exact absurd h (by simp)
+    · rename_i e2 hadd
+      -- rejected row: the determinant vanishes
+      have hd : d = 0 := (Option.some.inj h).symm
+      obtain ⟨m, hm⟩ := EchInv.add_false inv p n e e2 rows v hI hv hadd
+      obtain ⟨_, _, _, _, _, _, σ, c, _, _, _, hrow⟩ := hI
+      have hk : rows.length < n := by
+        rw [← hlen]; simp
+      rw [hd, Nat.cast_zero]
+      symm
+      apply det_zero_of_dependent (matOf p n (rows ++ v :: vs))
+        (fun t => vecN p n (e.basis.getD (t : Nat) [])) ⟨rows.length, hk⟩
+        (fun t => ((e.factors.getD (t : Nat) 0 : Nat) : ZMod p))
+        (fun t s => if (t : Nat) = rows.length then m (s : Nat) else c (t : Nat) (s : Nat))
+      · intro t ht
+        have ht' : (t : Nat) < rows.length := ht
+        have e1 : matOf p n (rows ++ v :: vs) t = vecI p n (rows.getD (t : Nat) []) := by
+          unfold matOf
+          rw [List.getD_append rows (v :: vs) [] (t : Nat) ht']
+        rw [e1, hrow t ht', sum_range_eq_filter t (fun s => c (t : Nat) s • vecN p n (e.basis.getD s []))]
+        congr 1
+        apply Finset.sum_congr rfl
+        intro s _
+        rw [if_neg (by omega)]
+      · have e1 : matOf p n (rows ++ v :: vs) ⟨rows.length, hk⟩ = vecI p n v := by
+          unfold matOf
+          simp only []
+          rw [List.getD_append_right rows (v :: vs) [] rows.length (le_refl _)]
+          simp
+        rw [e1, hm, sum_range_eq_filter (⟨rows.length, hk⟩ : Fin n) (fun s => m s • vecN p n (e.basis.getD s []))]
+        apply Finset.sum_congr rfl
+        intro s _
+        simp
+    · rename_i e' hadd
+      have h1 := EchInv.add_true inv p n e e' rows v hI hv hadd
+      have := detModPlain_spec inv p n hn vs e' (rows ++ [v]) d h1 (by simpa using hlen)
+        (fun r hr' => hr r (by simp [hr'])) h
+      simpa using this
 
 end Ymq.IntMat
